@@ -131,6 +131,10 @@ func (w *wideRun) offerWide(wc wideCase, c *lib.Bundle, detail string, pos int) 
 		w.res.Violate(lib.Violation{Sig: "store-hangs:wide:" + wc.Kind, What: "offering the block does not return: " + detail, Replay: rp})
 	case r.panicked:
 		w.res.Hit("rejected-by-panic:wide:" + wc.Kind)
+	case r.err == nil && wc.Kind == "tx" && singletonRejected(w.g, c, wc.Pos):
+		w.res.Violate(lib.Violation{Sig: "transaction-not-verified-at-its-position",
+			What: fmt.Sprintf("GOMAXPROCS=%d, block of %d transactions, position %d (%s): %s — the tampered block was stored (new-state backend: %v)",
+				wc.Procs, wc.Size, wc.Pos, rel, detail, wc.NewSt), Replay: rp})
 	case r.err == nil:
 		w.res.Violate(lib.Violation{Sig: "tampered-block-accepted:wide:" + wc.Kind,
 			What: fmt.Sprintf("GOMAXPROCS=%d, %d items, position %d (%s): %s — the tampered block was stored (new-state backend: %v)",
@@ -155,6 +159,14 @@ func (w *wideRun) offerWide(wc wideCase, c *lib.Bundle, detail string, pos int) 
 	if r.err == nil || r.panicked || r.hung {
 		w.n = openNode(w.g, wc.NewSt, base.Copy())
 	}
+}
+
+// singletonRejected: VerifyTransactions rejects transaction i of c when it is alone in the list.
+func singletonRejected(g *lib.ChainGen, c *lib.Bundle, i int) bool {
+	err, panicked, _ := lib.Try(func() error {
+		return core.VerifyTransactions([]core.Transaction{c.Block.Transactions[i]}, g.Net, c.Block.ProtocolVersion)
+	})
+	return err != nil && !panicked
 }
 
 func (w *wideRun) storeValid(pos int) bool {
